@@ -271,12 +271,15 @@ Vector Spherical_Coordinates(double r, double theta, double phi)
 
 Vector Spherical_Coordinates(double r, double theta, double phi, const Vector& axis)
 {
-	libphysica::Vector ev = axis.Normalized();
-	if(ev[2] == 1.0 || axis.Norm() == 0.0)
+	if(axis.Norm() == 0.0)
 		return Spherical_Coordinates(r, theta, phi);
+	libphysica::Vector ev = axis.Normalized();
+	// Length of the component of the axis perpendicular to z (computed directly: 1 - ev_z^2 cancels for axes close to +-z).
+	double aux = sqrt(ev[0] * ev[0] + ev[1] * ev[1]);
+	if(aux == 0.0)	 // axis parallel or antiparallel to z
+		return (ev[2] > 0.0) ? Spherical_Coordinates(r, theta, phi) : Spherical_Coordinates(r, M_PI - theta, -phi);
 	else
 	{
-		double aux = sqrt(1.0 - pow(ev[2], 2.0));
 
 		double cos_theta = cos(theta);
 		double sin_theta = sqrt(1.0 - cos_theta * cos_theta);
